@@ -11,7 +11,7 @@ tmp = tempfile.mkdtemp(prefix='cs-', dir='/tmp')
 log = []
 def sh(cmd, cwd, timeout=900, extra_env=None):
     e = dict(env); e.update(extra_env or {})
-    p = subprocess.run(cmd, cwd=cwd, env=e, capture_output=True, text=True, shell=isinstance(cmd, str), timeout=timeout)
+    p = subprocess.run(cmd, cwd=cwd, env=e, capture_output=True, text=True, errors='replace', shell=isinstance(cmd, str), timeout=timeout)
     return p.returncode, (p.stdout + p.stderr)
 try:
     repo = tmp + '/repo'
